@@ -139,14 +139,18 @@ func TestC13EncodeParse(t *testing.T) {
 		text, err := sml.NewEncoder(opts...).EncodeMessage(m)
 		// a long-lived encoder with the same options (it has encoded every earlier message of this
 		// process drawn with them) and a long-lived strict parser must agree with fresh ones
-		c13mu.Lock()
-		le := c13Encoders[odesc]
-		if le == nil {
-			le = sml.NewEncoder(opts...)
-			c13Encoders[odesc] = le
-		}
-		ltext, lerr := le.EncodeMessage(m)
-		c13mu.Unlock()
+		var ltext string
+		var lerr error
+		func() {
+			c13mu.Lock()
+			defer c13mu.Unlock()
+			le := c13Encoders[odesc]
+			if le == nil {
+				le = sml.NewEncoder(opts...)
+				c13Encoders[odesc] = le
+			}
+			ltext, lerr = le.EncodeMessage(m)
+		}()
 		if ltext != text || (lerr == nil) != (err == nil) {
 			rt.Fatalf("C13 violated: a long-lived Encoder (%s) and a fresh one render S%dF%d %s differently\n long-lived: %q (%v)\n fresh:      %q (%v)", odesc, stream, function, v, trunc200(ltext), lerr, trunc200(text), err)
 		}
@@ -175,12 +179,28 @@ func TestC13EncodeParse(t *testing.T) {
 			rt.Fatalf("C13 violated (%s): body %s parsed back as %s\n text: %q", odesc, v, pv, trunc200(text))
 		}
 		// the same through a reusable Parser and ParseMessage
-		c13mu.Lock()
-		if c13Parser == nil {
-			c13Parser = sml.NewParser(sml.WithParserStrictMode(true))
+		cut := 0
+		if len(text) > 2 && rapid.IntRange(0, 2).Draw(rt, "rejectedTextFirst") == 0 {
+			// the reusable parser is first given a damaged text (this one cut short at a drawn offset, a
+			// quote or a digit possibly left open) and rejects or accepts it; nothing of that may show
+			// in the next parse
+			cut = rapid.IntRange(1, len(text)-1).Draw(rt, "cut")
 		}
-		lpm, lperr := c13Parser.ParseMessage(text)
-		c13mu.Unlock()
+		var lpm *hsms.DataMessage
+		var lperr error
+		func() {
+			c13mu.Lock()
+			defer c13mu.Unlock()
+			if c13Parser == nil {
+				c13Parser = sml.NewParser(sml.WithParserStrictMode(true))
+			}
+			if cut > 0 {
+				if _, e := c13Parser.ParseMessage(text[:cut]); e != nil {
+					ev.Count("long_lived_parser_rejected_a_damaged_text_first", 1)
+				}
+			}
+			lpm, lperr = c13Parser.ParseMessage(text)
+		}()
 		if lperr != nil {
 			rt.Fatalf("C13 violated: a long-lived strict Parser rejects what ParseStrict accepts: %v\n text: %q", lperr, trunc200(text))
 		}
